@@ -427,9 +427,9 @@ class extract_ignore_from_comment:
     opts = {"refute_free_native_str": True, "timeout_ms": 5000, "max_unknown": 3}
 
     def ensures(comment, reference_map, result):
-        return parsed_as(result, comment_content(trim(seg_text(comment))), pm_line(comment.pos_marker), pm_pos(comment.pos_marker),
-                         reference_map)
-
+        c0 = (result is None) == (seg_kind0(comment) == 0)
+        c1 = entry_of(result, comment, reference_map) if result is not None else True
+        return c0 and c1
 
 
 # ================================================================== all comments of a file -> mask  (from_tree)
@@ -483,6 +483,11 @@ class new_mask:
 
 
 @spec
+def seg_kind0(c):
+    return kind_spec(directive_text(comment_content(trim(seg_text(c)))))
+
+
+@spec
 def seg_kind(c):
     """what the comment segment c is: 0 no directive, 1 a noqa directive, 2 a malformed one"""
     return kind_spec(directive_text(comment_content(trim(seg_text(c))))) if is_sql_comment(c) else 0
@@ -494,12 +499,27 @@ def seg_count(tree: BaseSegment, k: INT, n: INT) -> INT:
     return 0 if n <= 0 else seg_count(tree, k, n - 1) + (1 if seg_kind(comments_of(tree)[n - 1]) == k else 0)
 
 
-@spec(opaque=True)
-def seg_entry_at(xs, j, tree, i, m):
-    """xs[j] is what the i-th comment of the tree stands for (a directive / a malformed-directive error on its source line)"""
-    cs = comments_of(tree)
-    return (parsed_as(xs[j], comment_content(trim(seg_text(cs[i]))), pm_line(cs[i].pos_marker), pm_pos(cs[i].pos_marker), m)
-            if (0 <= j < len(xs) and 0 <= i < len(cs)) else False)
+@spec
+def parsed_entry(e, text, line_no, line_pos, m):
+    """the (non-None) parse result e is what the directive grammar makes of the comment text `text` found at (line_no, line_pos):
+    a malformed-directive error on that line, or a directive with that position, action and rule set"""
+    t = directive_text(text)
+    k = kind_spec(t)
+    c1 = implies(k == 2, kind_of(e) == 2 and as_err(e).line_no == line_no)
+    d = as_dir(e)
+    isd = k == 1 and kind_of(e) == 1
+    c2 = implies(k == 1, kind_of(e) == 1 and d.line_no == line_no and d.line_pos == line_pos and not d.used)
+    c3 = ((d.action is None) == (not has_action(t)) and (d.action == "enable") == (has_action(t) and action_text(t) == "enable")
+          and (d.action == "disable") == (has_action(t) and action_text(t) == "disable")) if isd else True
+    c4 = ((d.rules is None) == all_rules(t)) if isd else True
+    c5 = (list(some_list(d.rules)) == sorted(rules_spec(m, t))) if (isd and not all_rules(t) and d.rules is not None) else True
+    return k != 0 and c1 and c2 and c3 and c4 and c5
+
+
+@spec(uninterpreted=True)
+def entry_of(e: Obj, c: RawSegment, m: RefMap) -> BOOL:
+    """e is what comment segment c stands for"""
+    return parsed_entry(e, comment_content(trim(seg_text(c))), pm_line(c.pos_marker), pm_pos(c.pos_marker), m)
 
 
 @spec
@@ -507,15 +527,12 @@ def tree_mask(ds, es, tree, m, n):
     """(ds, es) are the directives and malformed-directive errors of the first n comments of the tree: one directive per
     noqa comment, in file order, each on the line of its comment; one error per malformed one"""
     cs = comments_of(tree)
-    # (proof plumbing, always True: makes the definition of seg_entry_at available outside the quantifiers below)
-    a1 = seg_entry_at(ds, 0, tree, 0, m) or True
-    a2 = seg_entry_at(es, 0, tree, 0, m) or True
     c1 = len(ds) == seg_count(tree, 1, n) and len(es) == seg_count(tree, 2, n)
-    c2 = all(implies(seg_kind(cs[i]) == 1, 0 <= seg_count(tree, 1, i) < len(ds) and seg_entry_at(ds, seg_count(tree, 1, i), tree, i, m))
+    c2 = all(implies(seg_kind(cs[i]) == 1, 0 <= seg_count(tree, 1, i) < len(ds) and entry_of(ds[seg_count(tree, 1, i)], cs[i], m))
              for i in range(0, n))
-    c3 = all(implies(seg_kind(cs[i]) == 2, 0 <= seg_count(tree, 2, i) < len(es) and seg_entry_at(es, seg_count(tree, 2, i), tree, i, m))
+    c3 = all(implies(seg_kind(cs[i]) == 2, 0 <= seg_count(tree, 2, i) < len(es) and entry_of(es[seg_count(tree, 2, i)], cs[i], m))
              for i in range(0, n))
-    return a1 and a2 and c1 and c2 and c3
+    return c1 and c2 and c3
 
 
 @contract("sqlfluff.core.rules.noqa:IgnoreMask.from_tree", PROP)
